@@ -74,6 +74,12 @@ LimitTourSize_(r, k) == C_SetLimit(r, k, "tourSize", Len(V_Inner(r.tours[k])) - 
 C_MaxSpan(r, k) == Max(V_Range(V_RechargeSpans(r, r.tours[k])) \cup {0})
 LimitRecharge_(r, k) == [r EXCEPT !.vehicles = [v \in 1..Len(@) |->
                          IF @[v].type = r.tours[k].type THEN [@[v] EXCEPT !.shifts[r.tours[k].shift].recharge.max = C_MaxSpan(r, k) - 2] ELSE @[v]]]
+\* limit breach, shift time: the shift of tour k must be over two units before the tour arrives (shifts with an end), or may only
+\* start two units after the tour has left
+C_SetShift(r, k, field, value) == [r EXCEPT !.vehicles = [v \in 1..Len(@) |->
+                         IF @[v].type = r.tours[k].type THEN [@[v] EXCEPT !.shifts[r.tours[k].shift][field] = value] ELSE @[v]]]
+ShiftEndsEarly(r, k) == C_SetShift(r, k, "elatest", r.tours[k].stops[Len(r.tours[k].stops)].arr - 2)
+ShiftStartsLate(r, k) == C_SetShift(r, k, "earliest", V_DepTime(r.tours[k]) + 2)
 \* broken relation: a relation is added that pins a job of tour k to the vehicle of another tour k2
 BreakRelation(r, k, s, a, k2) ==
   [r EXCEPT !.relations = Append(@, [type |-> "any", vehicle |-> r.tours[k2].vehicle, shift |-> r.tours[k2].shift,
@@ -104,6 +110,10 @@ Breaches(r) ==
   \cup { [class |-> "LimitDistance", k |-> k, s |-> 0, a |-> 0, k2 |-> 0] : k \in { k \in C_Tours(r) : r.tours[k].stat.distance > 2 /\ ~LimitDistance(LimitDistance_(r, k)) } }
   \cup { [class |-> "LimitDuration", k |-> k, s |-> 0, a |-> 0, k2 |-> 0] : k \in { k \in C_Tours(r) : r.tours[k].stat.duration > 2 /\ ~LimitDuration(LimitDuration_(r, k)) } }
   \cup { [class |-> "LimitTourSize", k |-> k, s |-> 0, a |-> 0, k2 |-> 0] : k \in { k \in C_Tours(r) : Len(V_Inner(r.tours[k])) >= 1 /\ ~LimitTourSize(LimitTourSize_(r, k)) } }
+  \cup { [class |-> "ShiftEndsEarly", k |-> k, s |-> 0, a |-> 0, k2 |-> 0] :
+            k \in { k \in C_Tours(r) : V_Shift(r, r.tours[k]).hasEnd /\ ~ShiftEnd(ShiftEndsEarly(r, k)) } }
+  \cup { [class |-> "ShiftStartsLate", k |-> k, s |-> 0, a |-> 0, k2 |-> 0] :
+            k \in { k \in C_Tours(r) : ~DepartureNotBeforeEarliest(ShiftStartsLate(r, k)) } }
   \cup { [class |-> "LimitRecharge", k |-> k, s |-> 0, a |-> 0, k2 |-> 0] :
             k \in { k \in C_Tours(r) : V_Shift(r, r.tours[k]).recharge.max # -1 /\ C_MaxSpan(r, k) > 2 /\ ~RechargeDistance(LimitRecharge_(r, k)) } }
   \cup { [class |-> "BreakRelation", k |-> x[1], s |-> x[2], a |-> x[3], k2 |-> k2] : x \in C_JobSites(r),
